@@ -4,6 +4,73 @@
 open Model
 open Driver
 
+
+(* ---- interleavings of threads on a thread-safe subject (Ileave.v) ---- *)
+let iop_of (s : sexp) : iop =
+  let a = args s in
+  match head s with
+  | "n" -> INext (zarg (List.hd a))
+  | "c" | "bc" -> ITerm None
+  | "e" | "be" -> ITerm (Some (zarg (List.hd a)))
+  | "sub" -> ISub (narg (List.hd a))
+  | "unsub" -> IUnsub (narg (List.hd a))
+  | "bn" -> IBNext (zarg (List.hd a))
+  | "bsub" -> IBSub (narg (List.hd a))
+  | "peek" -> IBPeek
+  | "sunsub" | "bsunsub" -> ISUnsub
+  | h -> failwith ("bad ileave op " ^ h)
+
+let ileave_parts (body : sexp list) =
+  (zarg (List.nth body 0), List.map iop_of (args (List.nth body 1)),
+   List.map (fun s -> match s with List l -> List.map iop_of l | Atom _ -> failwith "bad script") (args (List.nth body 2)),
+   List.map narg (args (List.nth body 3)))
+
+let show_payload = function
+  | YItem v -> Printf.sprintf "(n %d)" (int_of_z v)
+  | YTerm None -> "c"
+  | YTerm (Some e) -> Printf.sprintf "(e %d)" (int_of_z e)
+
+let show_itrace (tr : itr list) (e : iend) (final : z) : string =
+  let names = Hashtbl.create 16 in
+  let name (l : ilock) = (match Hashtbl.find_opt names l with
+                          | Some n -> n
+                          | None -> let n = Hashtbl.length names in Hashtbl.add names l n; n) in
+  let items = List.map (function
+      | TAcq (t, l) -> Printf.sprintf "(a %d %d)" (int_of_nat t) (name l)
+      | TEv (k, p, t, j) -> Printf.sprintf "(v %d %s %d %d)" (int_of_nat k) (show_payload p) (int_of_nat t) (int_of_nat j)
+      | TPk (x, t, j) -> Printf.sprintf "(pk %d %d %d)" (int_of_z x) (int_of_nat t) (int_of_nat j)
+      | TUn (k, t, j) -> Printf.sprintf "(u %d %d %d)" (int_of_nat k) (int_of_nat t) (int_of_nat j)
+      | TOverlap k -> Printf.sprintf "(ov %d)" (int_of_nat k)
+      | TPanic t -> Printf.sprintf "(panic %d)" (int_of_nat t)) tr in
+  String.concat " " (items @ (match e with
+                              | EFinished -> [Printf.sprintf "(val %d)" (int_of_z final); "fin"]
+                              | EDeadlock -> ["deadlock"]
+                              | EShort -> ["short"]))
+
+(* the implementation's trace, read back: (events, how it ended, final value) *)
+let itrace_of (impl : string) : itr list * string * z =
+  match parse ("(" ^ impl ^ ")") with
+  | List l ->
+      let fin = ref Z0 and ending = ref "none" in
+      let evs = List.filter_map (fun x -> match x with
+          | List [Atom "a"; t; n] -> Some (TAcq (narg t, LCell (narg n)))
+          | List [Atom "v"; k; p; t; j] ->
+              let p = (match p with
+                       | Atom "c" -> YTerm None
+                       | List [Atom "e"; x] -> YTerm (Some (zarg x))
+                       | List [Atom "n"; x] -> YItem (zarg x)
+                       | _ -> failwith "bad payload") in
+              Some (TEv (narg k, p, narg t, narg j))
+          | List [Atom "pk"; x; t; j] -> Some (TPk (zarg x, narg t, narg j))
+          | List [Atom "u"; k; t; j] -> Some (TUn (narg k, narg t, narg j))
+          | List [Atom "ov"; k] -> Some (TOverlap (narg k))
+          | List [Atom "val"; x] -> fin := zarg x; None
+          | List [Atom "panic"; _] -> ending := "panic"; None
+          | Atom w -> (if !ending <> "panic" then ending := w); None
+          | _ -> failwith "bad ileave trace") l in
+      (evs, !ending, !fin)
+  | _ -> failwith "bad ileave trace"
+
 let rec run_case (kind : string) (body : sexp list) : string * string =
   match kind with
   | "chain" ->
@@ -108,6 +175,10 @@ let rec run_case (kind : string) (body : sexp list) : string * string =
         else sts in
       let connected = (match atom (List.nth body 1) with "never" | "dead" -> false | _ -> true) in
       (show_segs (run_finalize_segs_from connected sh sts), "UNSPECIFIED")
+  | "ileave" ->
+      let (v0, setup, scripts, sched) = ileave_parts body in
+      let ((tr, e), fin) = Model.run_case v0 setup scripts sched in
+      (show_itrace tr e fin, "UNSPECIFIED")
   | "locks" ->
       (* (locks PIPE NSUBS (ops ...)): the mutexes each operation locks, renamed by first appearance *)
       let pipe = List.nth body 0 and nsubs = int_of (List.nth body 1) in
@@ -382,6 +453,28 @@ let oracle (kind : string) (body : sexp list) (impl : string) : string option =
       if impl = s then Some "ok"
       else if impl = m then Some "known:still-driven share(): after its last subscriber has unsubscribed the shared observable keeps its source connected and driven"
       else Some "reject:C11 neither the specified nor the recorded behaviour"
+  | "ileave" ->
+      let (v0, setup, scripts, _) = ileave_parts body in
+      let (tr, ending, fin) = itrace_of impl in
+      let e = (match ending with "fin" -> EFinished | "deadlock" -> EDeadlock | _ -> EShort) in
+      if ending = "panic" then Some "reject:C10 a thread panicked"
+      else if ending = "hang" then Some "reject:C10 a call did not return (a thread blocked outside the gates)"
+      else if ending = "deadlock" then Some "reject:C10 deadlock: every unfinished thread waits for a mutex another one holds"
+      else if ending <> "fin" then Some "reject:the schedule ended before the threads did"
+      else if not (no_overlap tr) then Some "reject:C10 a subscriber callback ran on two threads at once"
+      else if not (grammar_ok tr) then Some "reject:C01 a notification after the terminal"
+      else if not (quiet_after_unsub tr) then Some "reject:C02 a subscriber was called after its unsubscribe() had returned"
+      else if not (values_ok scripts tr) then Some "reject:C06 a delivered item is not the value of the next() that broadcast it"
+      else if not (common_order_ok scripts tr) then Some "reject:C10/C06 subscribers saw concurrent emissions in different orders, or one of them twice"
+      else if not (full_time_sees_all setup scripts tr) then Some "reject:C06 a subscriber that was there from the start and never left missed an item others received"
+      else if not (nothing_lost setup scripts tr e) then Some "reject:C06 an emission reached nobody although a subscriber was there from the start"
+      else if not (ileave_ok setup scripts tr e) then Some "reject:C10"
+      else if List.length body < 5 then Some "ok"     (* the clauses about the stored value are judged by C12 only *)
+      else if not (latest_ok v0 setup scripts tr e fin) then
+        Some "known:behavior-race the value stored in the thread-safe BehaviorSubject is not the one delivered last in the common order"
+      else if not (joiner_ok v0 setup scripts tr e) then
+        Some "known:behavior-race a subscriber joining a thread-safe BehaviorSubject while others emit was handed a stale value or missed a later item"
+      else Some "ok"
   | "tree" ->
       if String.length impl >= 5 && String.sub impl 0 5 = "PANIC" then Some "reject:panic" else
       let t = (match parse ("(" ^ impl ^ ")") with List l -> List.map ev_of l | _ -> []) in
